@@ -169,6 +169,30 @@ func verifHarness_C11_dispatch(kind int, member int, target int) {
 	verifReach("C11/K1")
 }
 
+// K2b: a full backlog keeps what it holds: 64 distinct items queued (nothing drains them), a 65th is written: the queue
+// still holds the first 64, in order (the newcomer is the one discarded), and the call does not block.
+func verifHarness_C13_full_queue_keeps_backlog() {
+	n := verifBareNode(V2, 1, 1)
+	rc := &Channel{node: n, rwc: &verifRWC{}}
+	verifAssert(rc.initialize() == nil, "C13/K2b/channel-init")
+	items := make([]*message.MessageRaw, 65)
+	for i := range items {
+		items[i] = &message.MessageRaw{ID: 7, Payload: []byte{byte(i)}}
+	}
+	for i := 0; i < 64; i++ {
+		rc.write(items[i])
+	}
+	verifAssert(len(rc.chWrite) == 64, "C13/K2b/sixty-four-items-queued")
+	blocked := verifRunUntilBlocked(func() { rc.write(items[64]) })
+	verifAssert(!blocked, "C13/K2b/enqueue-never-blocks")
+	verifAssert(len(rc.chWrite) == 64, "C13/K2b/still-sixty-four")
+	for i := 0; i < 64 && len(rc.chWrite) > 0; i++ {
+		it := <-rc.chWrite
+		verifAssert(it == interface{}(items[i]), "C13/K2b/backlog-kept-in-order-newcomer-discarded")
+	}
+	verifReach("C13/K2b")
+}
+
 // K2 (C11/C13): enqueue on one channel with an arbitrary fill level: appended at the tail when below 64,
 // dropped without blocking when full; a cancelled channel never blocks either.
 func verifHarness_C13_enqueue(cancelled int) {
